@@ -4,7 +4,7 @@
    each host (ok / refuse / hang in connect / hang mid-command), the watchdog, the integer clock.
    Every statement is for every number of targets, every fanout >= 1, every assignment of
    behaviours, every time-out setting and every admitted event sequence. *)
-From PV Require Import Dsh.Sys Dsh.SysFacts Dsh.SysProj.
+From PV Require Import Dsh.Sys Dsh.SysFacts Dsh.SysProj Dsh.SysLive.
 Local Open Scope Z_scope.
 
 (* ---- isolation: whatever the other hosts do, each target gets exactly one command ---- *)
@@ -32,6 +32,14 @@ Theorem C07_fanout_bound_with_faults : forall (c : cfg), (0 < ntgt c)%nat -> 1 <
   run c (init c t0) es = Some s -> nosig es -> inflight s <= f c /\ 0 <= tc s <= f c.
 Proof. exact faults_bound. Qed.
 Print Assumptions C07_fanout_bound_with_faults.
+
+(* the only thing pdsh ever waits for, apart from the clock, is a host that hangs inside connect()
+   or the read loop: in every reachable state that has not exited either some thread can take a
+   step, or such a host exists (and the deadline below bounds how long, when its time-out is > 0) *)
+Theorem C07_never_stuck : forall (c : cfg), 1 <= f c -> forall t0 es s, run c (init c t0) es = Some s -> exited s = None ->
+  can_move c s \/ hung_worker c s.
+Proof. exact no_deadlock. Qed.
+Print Assumptions C07_never_stuck.
 
 (* ---- time-outs ---- *)
 (* On every run in which time advances only while every thread is blocked (Sys.calm: watchdog
